@@ -906,7 +906,13 @@ rt_prop("C07", ["task", "cancel", "comb"],
         "the direct host, after EVERY history that leaves every channel closed, no task remains (no other hypothesis: NAb — nothing is ever aborted — and runDirect_ready — every observation leaves the ready queue empty — discharge the side conditions) "
         "(invariants GInv + LQ + SPc + ND, Lemmas/Simple, NoReg, Complete: the poll that leaves a simple task suspended only at "
         "closed requests registers its waker nowhere — NRGood, one grind call — so run_task evicts it unless that poll woke it: "
-        "dead_simple_task_is_evicted_or_queued). For the rest of the handoff-free fragment (select, join handles) completeness is stated "
+        "dead_simple_task_is_evicted_or_queued). AND WITH SELECT — command_with_select_done_when_all_requests_gone: the same for simpleS "
+        "programs (simple + select in any nesting). A completed select leaves its losing branch's registrations behind, so a task "
+        "can stay Suspended at closed requests only, held by a stale registration at a live channel (kernel-evaluated example); "
+        "invariants NDS (such a task is queued or some channel holds a waker of it), WOwn (a channel a stored task references holds "
+        "only that task's wakers: no other poll overwrites a stale registration), take_wake_stale (who takes a waker wakes it), "
+        "Lemmas/SimpleS, CompleteS: four more grind frames, bundle CS through the executor, the shell and the direct host. "
+        "For the rest of the handoff-free fragment (join handles) completeness is stated "
         "(evict_complete_handoff_free_goal; no counterexample in the `complete` stream) and not proved. It is also FALSE on the "
         "real code outside the modelled fragment: a task that retains a clone of its own waker (FuturesUnordered / "
         "flatten_unordered behind StreamBuilder::then_stream on a stream) and then waits on a dropped one-shot request is never evicted "
